@@ -266,4 +266,19 @@ def runA (it : Items) (a : AState) : List Op → List ObsH → Bool
     | none => false
   | _, _ => false
 
+/-! ## property C06: no crash, no fabricated record -/
+
+/-- the observation is a panic or a loop that ran out of fuel -/
+def ObsH.crash : ObsH → Bool
+  | .panic => true
+  | .fuel => true
+  | _ => false
+
+/-- every record the observation shows is a record of S -/
+def Genuine (it : Items) : ObsH → Prop
+  | .record h ls => ∃ rc ∈ it.recs, rc.head = h ∧ rc.seqLines = ls
+  | .owned h s => ∃ rc ∈ it.recs, rc.head = h ∧ rc.seq = s
+  | .dump l => ∀ v ∈ l, ∃ rc ∈ it.recs, view rc = v
+  | _ => True
+
 end SeqIo.Fasta.Hist
